@@ -18,7 +18,7 @@ type C02Conc struct {
 
 func genC02Conc(t *rapid.T) C02Conc {
 	n := 2 + uniformN(t, 7, "callers")
-	c := C02Conc{Rounds: pick(15, 60)}
+	c := C02Conc{Rounds: pick(15, 30)}
 	for i := 0; i < n; i++ {
 		pc := genPageCase(t, pageGenOpts{sink: true})
 		if len(pc.Tpl) > 4096 {
@@ -73,5 +73,5 @@ func checkC02Conc(c C02Conc) (o Outcome) {
 var _ = registerReplay("C02", "conc", checkC02Conc)
 
 func runConcC02(t *testing.T) {
-	RunProp(t, "C02", "conc", pick(60, 600), genC02Conc, checkC02Conc)
+	RunProp(t, "C02", "conc", pick(60, 150), genC02Conc, checkC02Conc)
 }
